@@ -54,6 +54,9 @@ def build_harness(profile="debug"):
     if profile == "nochecks":
         args += ["--profile", "nochecks"]
         out = os.path.join(HARNESS, "target", "nochecks", "rm-verif-harness")
+    elif profile == "release":
+        args += ["--release"]
+        out = os.path.join(HARNESS, "target", "release", "rm-verif-harness")
     else:
         out = os.path.join(HARNESS, "target", "debug", "rm-verif-harness")
     t0 = time.time()
@@ -263,6 +266,22 @@ def run_harness(scenarios, name, profile="debug", timeout=1800):
     runs = [json.loads(l) for l in open(trace_path + ".runs")]
     summary["wall"] = time.time() - t0
     return trace_path, runs, summary
+
+
+def run_free(cases, name, profile="release", timeout=1800):
+    """free-running (real threads) histories of the stand-alone containers; returns (trace_path, runs)"""
+    exe = build_harness(profile)
+    d = os.path.join(WORK, "runs")
+    os.makedirs(d, exist_ok=True)
+    spec_path = os.path.join(d, name + ".free.json")
+    trace_path = os.path.join(d, name + ".trace.ndjson")
+    with open(spec_path, "w") as f:
+        json.dump({"cases": cases}, f)
+    p = sh([exe, "free", spec_path, trace_path], cwd=d, timeout=timeout, check=False)
+    if p.returncode != 0:
+        raise ToolError("free-running harness failed (%d) on %s:\n%s" % (p.returncode, name, p.stdout[-3000:]))
+    runs = [json.loads(l) for l in open(trace_path + ".runs")]
+    return trace_path, runs
 
 
 def _split_trace(trace_path, runs, parts):
@@ -477,8 +496,12 @@ class Check:
         return r
 
     # ---- conformance
-    def conform(self, scenarios, name, module, consts, profile="debug", parallel=8):
-        trace, runs, summ = run_harness(scenarios, "%s_%s" % (self.prop, name), profile)
+    def conform(self, scenarios, name, module, consts, profile="debug", parallel=8, free_cases=None):
+        if free_cases is not None:
+            trace, runs = run_free(free_cases, "%s_%s" % (self.prop, name))
+            summ = {"scenarios": [{"id": x.get("id"), "mode": "free-running", "threads": x.get("threads"), "rounds": x.get("rounds"), "runs": x.get("runs")} for x in free_cases]}
+        else:
+            trace, runs, summ = run_harness(scenarios, "%s_%s" % (self.prop, name), profile)
         v = validate_trace(trace, runs, module, consts, "%s_%s_%s" % (self.prop, name, module), parallel=parallel)
         self.transitions += 0
         self.traces += v["runs_ok"]
